@@ -3,7 +3,7 @@ import os, re, subprocess, time, shutil, json, fcntl
 from vlib import VERIF, REPO, WORK, gen_unit
 from props import KANI_GROUPS
 
-KTARGET = os.path.join(WORK, "kani-target")
+KTARGET = os.environ.get("SKA_KANI_TARGET", os.path.join(WORK, "kani-target"))
 MEM_KB = int(os.environ.get("SKA_KANI_MEM_KB", str(24 * 1024 * 1024)))
 
 
@@ -118,6 +118,10 @@ def run_kani(src, harnesses, extra_args=None, timeout=3600, jobs=None):
     os.makedirs(KTARGET, exist_ok=True)
     shell = f"ulimit -v {MEM_KB}; exec " + " ".join("'" + c + "'" for c in cmd)
     t0 = time.time()
+    # cargo-kani keeps per-package artifacts in the target directory: two runs on different copies of the crate
+    # sharing one target directory overwrite each other's files, so runs are serialised with a lock
+    lockf = open(os.path.join(KTARGET, ".verif-lock"), "w")
+    fcntl.flock(lockf, fcntl.LOCK_EX)
     try:
         p = subprocess.run(["bash", "-c", shell], cwd=src, env=env, capture_output=True, text=True, timeout=timeout)
         out = p.stdout + "\n" + p.stderr
@@ -126,6 +130,9 @@ def run_kani(src, harnesses, extra_args=None, timeout=3600, jobs=None):
         out = (e.stdout or b"").decode("utf8", "replace") if isinstance(e.stdout, bytes) else (e.stdout or "")
         out += "\nTIMEOUT"
         rc = 124
+    finally:
+        fcntl.flock(lockf, fcntl.LOCK_UN)
+        lockf.close()
     return {"rc": rc, "out": out, "wall_s": time.time() - t0, "cmd": "CARGO_NET_OFFLINE=true " + " ".join(cmd)}
 
 
